@@ -175,6 +175,9 @@ def opSpecSolution : J.Op := fun j => do
   let eqcv ← J.field j "eqcv" (J.mat J.rat)
   let fr ← J.field j "fresh" (J.list fresh)
   let space ← J.fieldD j "space" (J.list J.int) []
+  -- candidate set with labels of a non-integer dtype (a SubsetProblem's `decn_space` is an arbitrary 1-D array):
+  -- the returned VALUES must be `k` distinct members of the label set (`feasibleB` at `ε := Rat`); no dtype is demanded
+  let labels ← J.fieldD j "labels" (J.opt (J.list J.rat)) none
   let lower ← J.fieldD j "lower" (J.list J.rat) []
   let upper ← J.fieldD j "upper" (J.list J.rat) []
   let shapes := decn.length == nsoln && obj.length == nsoln && ineqcv.length == nsoln && eqcv.length == nsoln
@@ -186,7 +189,9 @@ def opSpecSolution : J.Op := fun j => do
     (List.zip row (List.zip lower upper)).all (fun p => decide (p.2.1 ≤ p.1) && decide (p.1 ≤ p.2.2))
   let feasRow (row : List Rat) : Bool :=
     if kind == "subset" then
-      dtype == "int" && row.all isIntR && feasibleB space k (row.map (·.num))
+      match labels with
+      | some labs => feasibleB labs k row
+      | none => dtype == "int" && row.all isIntR && feasibleB space k (row.map (·.num))
     else if kind == "integer" then dtype == "int" && row.all isIntR && inBounds row
     else if kind == "binary" then (dtype == "bool" || dtype == "int") && row.all (fun q => q == 0 || q == 1) && inBounds row
     else if kind == "real" then dtype == "float" && inBounds row
